@@ -1,6 +1,6 @@
 /-
   PINS of property C09: the decision tokens of every item the property is anchored in
-  (properties.jsonl `anchors` + tools/anchor_extra.json), as they were in /repo at b30ed81 when the
+  (properties.jsonl `anchors` + tools/anchor_extra.json), as they were in /repo at 770977e when the
   model was validated against the source.  Written by tools/pin_anchors.py; the right-hand sides are
   compared by the kernel with lean/Chrono/Extracted/Anchors.lean, which tools/extractors/anchors.py
   regenerates from /repo's working tree on every check.  A theorem that fails here means: anchored
@@ -26,6 +26,14 @@ theorem src_datetime_mod_rs_impl_FromStr_for_DateTime : C09_src_datetime_mod_rs_
 theorem src_format_formatting_rs_fn_write_hundreds : C09_src_format_formatting_rs_fn_write_hundreds =
     ["v1", "&", "Write", "v2", "u8", "->", "v3", "Result", "if", "v2", ">=", "100", "return", "Err(", "v3", "Error", "v4", "b'0'", "+", "v2", "/", "10", "v5", "b'0'", "+", "v2", "%", "10", "v1", "write_char(", "v4", "as", "char", "?", "v1", "write_char(", "v5", "as", "char"] := by decide +kernel
 
+/-- src/format/mod.rs:impl FromStr for Month -/
+theorem src_format_mod_rs_impl_FromStr_for_Month : C09_src_format_mod_rs_impl_FromStr_for_Month =
+    ["FromStr", "for", "Month", "Err", "ParseMonthError", "from_str(", "v1", "&", "str", "->", "Result", "<", "Self", "Self", "Err", ">", "if", "Ok(", "\"\"", "v2", "v3", "short_or_long_month0(", "v1", "match", "v2", "0", "=>", "Ok(", "Month", "January", "1", "=>", "Ok(", "Month", "February", "2", "=>", "Ok(", "Month", "March", "3", "=>", "Ok(", "Month", "April", "4", "=>", "Ok(", "Month", "May", "5", "=>", "Ok(", "Month", "June", "6", "=>", "Ok(", "Month", "July", "7", "=>", "Ok(", "Month", "August", "8", "=>", "Ok(", "Month", "September", "9", "=>", "Ok(", "Month", "October", "10", "=>", "Ok(", "Month", "November", "11", "=>", "Ok(", "Month", "December", "v4", "=>", "Err(", "ParseMonthError", "v5", "else", "Err(", "ParseMonthError", "v5"] := by decide +kernel
+
+/-- src/format/mod.rs:impl FromStr for Weekday -/
+theorem src_format_mod_rs_impl_FromStr_for_Weekday : C09_src_format_mod_rs_impl_FromStr_for_Weekday =
+    ["FromStr", "for", "Weekday", "Err", "ParseWeekdayError", "from_str(", "v1", "&", "str", "->", "Result", "<", "Self", "Self", "Err", ">", "if", "Ok(", "\"\"", "v2", "v3", "short_or_long_weekday(", "v1", "Ok(", "v2", "else", "Err(", "ParseWeekdayError", "v4"] := by decide +kernel
+
 /-- src/format/mod.rs:type Month -/
 theorem src_format_mod_rs_type_Month : C09_src_format_mod_rs_type_Month =
     ["FromStr", "for", "Month", "Err", "ParseMonthError", "from_str(", "v1", "&", "str", "->", "Result", "<", "Self", "Self", "Err", ">", "if", "Ok(", "\"\"", "v2", "v3", "short_or_long_month0(", "v1", "match", "v2", "0", "=>", "Ok(", "Month", "January", "1", "=>", "Ok(", "Month", "February", "2", "=>", "Ok(", "Month", "March", "3", "=>", "Ok(", "Month", "April", "4", "=>", "Ok(", "Month", "May", "5", "=>", "Ok(", "Month", "June", "6", "=>", "Ok(", "Month", "July", "7", "=>", "Ok(", "Month", "August", "8", "=>", "Ok(", "Month", "September", "9", "=>", "Ok(", "Month", "October", "10", "=>", "Ok(", "Month", "November", "11", "=>", "Ok(", "Month", "December", "v4", "=>", "Err(", "ParseMonthError", "v5", "else", "Err(", "ParseMonthError", "v5"] := by decide +kernel
@@ -49,6 +57,10 @@ theorem src_format_scan_rs_fn_short_or_long_weekday : C09_src_format_scan_rs_fn_
 /-- src/format/scan.rs:fn timezone_offset -/
 theorem src_format_scan_rs_fn_timezone_offset : C09_src_format_scan_rs_fn_timezone_offset =
     ["<", "F", ">", "v1", "&", "str", "v2", "F", "v3", "bool", "v4", "bool", "v5", "bool", "->", "ParseResult", "<", "&", "str", "i32", ">", "F", "FnMut(", "&", "str", "->", "ParseResult", "<", "&", "str", ">", "if", "v3", "if", "Some(", "&", "b'Z'", "|", "&", "b'z'", "v1", "as_bytes(", "first(", "return", "Ok(", "&", "v1", "1", "..", "0", "digits(", "v1", "&", "str", "->", "ParseResult", "<", "u8", "u8", ">", "v6", "v1", "as_bytes(", "if", "v6", "len(", "<", "2", "Err(", "TOO_SHORT", "else", "Ok(", "v6", "0", "v6", "1", "v7", "match", "v1", "chars(", "next(", "Some(", "'+'", "=>", "v1", "&", "v1", "'+'", "len_utf8(", "..", "false", "Some(", "'-'", "=>", "v1", "&", "v1", "'-'", "len_utf8(", "..", "true", "Some(", "'−'", "=>", "if", "!", "v5", "return", "Err(", "INVALID", "v1", "&", "v1", "'−'", "len_utf8(", "..", "true", "Some(", "v8", "=>", "return", "Err(", "INVALID", "None", "=>", "return", "Err(", "TOO_SHORT", "v9", "match", "digits(", "v1", "?", "v10", "b'0'", "..=", "b'9'", "v11", "b'0'", "..=", "b'9'", "=>", "i32", "from(", "v10", "-", "b'0'", "*", "10", "+", "v11", "-", "b'0'", "v8", "=>", "return", "Err(", "INVALID", "v1", "&", "v1", "2", "..", "v1", "consume_colon(", "v1", "?", "v12", "if", "Ok(", "v13", "digits(", "v1", "match", "v13", "v14", "b'0'", "..=", "b'5'", "v15", "b'0'", "..=", "b'9'", "=>", "i32", "from(", "v14", "-", "b'0'", "*", "10", "+", "v15", "-", "b'0'", "b'6'", "..=", "b'9'", "b'0'", "..=", "b'9'", "=>", "return", "Err(", "OUT_OF_RANGE", "v8", "=>", "return", "Err(", "INVALID", "else", "if", "v4", "0", "else", "return", "Err(", "TOO_SHORT", "v1", "match", "v1", "len(", "v16", "if", "v16", ">=", "2", "=>", "&", "v1", "2", "..", "0", "=>", "v1", "v8", "=>", "return", "Err(", "TOO_SHORT", "v17", "v9", "*", "3600", "+", "v12", "*", "60", "Ok(", "v1", "if", "v7", "-", "v17", "else", "v17"] := by decide +kernel
+
+/-- src/month.rs:fn name -/
+theorem src_month_rs_fn_name : C09_src_month_rs_fn_name =
+    ["&", "self", "->", "&", "str", "match", "*", "self", "Month", "January", "=>", "\"January\"", "Month", "February", "=>", "\"February\"", "Month", "March", "=>", "\"March\"", "Month", "April", "=>", "\"April\"", "Month", "May", "=>", "\"May\"", "Month", "June", "=>", "\"June\"", "Month", "July", "=>", "\"July\"", "Month", "August", "=>", "\"August\"", "Month", "September", "=>", "\"September\"", "Month", "October", "=>", "\"October\"", "Month", "November", "=>", "\"November\"", "Month", "December", "=>", "\"December\""] := by decide +kernel
 
 /-- src/naive/date/mod.rs:impl Debug -/
 theorem src_naive_date_mod_rs_impl_Debug : C09_src_naive_date_mod_rs_impl_Debug =
@@ -105,6 +117,10 @@ theorem src_offset_utc_rs_impl_Debug : C09_src_offset_utc_rs_impl_Debug =
 /-- src/offset/utc.rs:impl Display -/
 theorem src_offset_utc_rs_impl_Display : C09_src_offset_utc_rs_impl_Display =
     ["v1", "Display", "for", "Utc", "fmt(", "&", "self", "v2", "&", "v1", "Formatter", "->", "v1", "Result", "write!(", "v2", "\"UTC\""] := by decide +kernel
+
+/-- src/weekday.rs:impl Display -/
+theorem src_weekday_rs_impl_Display : C09_src_weekday_rs_impl_Display =
+    ["v1", "Display", "for", "Weekday", "fmt(", "&", "self", "v2", "&", "v1", "Formatter", "->", "v1", "Result", "v2", "pad(", "match", "*", "self", "Weekday", "Mon", "=>", "\"Mon\"", "Weekday", "Tue", "=>", "\"Tue\"", "Weekday", "Wed", "=>", "\"Wed\"", "Weekday", "Thu", "=>", "\"Thu\"", "Weekday", "Fri", "=>", "\"Fri\"", "Weekday", "Sat", "=>", "\"Sat\"", "Weekday", "Sun", "=>", "\"Sun\"", "§", "v1", "Display", "for", "ParseWeekdayError", "fmt(", "&", "self", "v2", "&", "v1", "Formatter", "->", "v1", "Result", "v2", "write_fmt(", "format_args!(", "\"{:?}\"", "self"] := by decide +kernel
 
 /-- callee src/datetime/mod.rs:fn from_naive_utc_and_offset -/
 theorem callee_src_datetime_mod_rs_fn_from_naive_utc_and_offset : C09_callee_src_datetime_mod_rs_fn_from_naive_utc_and_offset =
